@@ -16,7 +16,7 @@ BASE = {
     "is_async": False, "field_extra": False, "field_type": "String", "field_rename": None, "rename_all": None, "field_skip": False,
     "variant_extra": False, "variant_rename": False, "enum_rename_all": None, "validator_val": 1, "validator_msg": None, "validator_email": False,
     "event_extra": False, "event_payload": "User", "event_name": "user-changed", "channel": False, "channel_type": "String", "noise": 0,
-    "mode": "none", "type_mappings": True, "default_parameter_case": "camelCase", "default_field_case": "snake_case", "visualize_deps": False, "labels_file": "shared/labels.rs",
+    "mode": "none", "type_mappings": True, "default_parameter_case": "camelCase", "default_field_case": "snake_case", "visualize_deps": False, "labels_file": "shared/labels.rs", "marker_is_enum": False,
     "no_commands": False, "second_file": False, "private_field_type": "u32", "crate_field": False,
     "cmd_rename_all": None, "param_serde_rename": None, "status_serde": True, "channel_name": "on_progress", "validator_range": None, "second_struct_field": "i32",
     "notice_min": 3, "notice_level": "i32", "notice_nested": "u8", "tm_targets": ("string", "string"),
@@ -90,6 +90,8 @@ EDITS = [
     ("remove-all-events/restore", lambda s: s.update(no_events=not s["no_events"])),
     ("move-type-to-other-file", lambda s: s.update(second_file=not s["second_file"])),
     # a file that holds only a type is renamed: no command moves, no line shifts, no content changes — but the graph listing names the file
+    # a declaration with nothing between its braces changes kind: `struct Marker;` <-> `enum Marker {}` (interface {} <-> never)
+    ("empty-struct-becomes-empty-enum", lambda s: s.update(marker_is_enum=not s["marker_is_enum"])),
     ("rename-a-types-only-file", lambda s: s.update(labels_file="shared/label_types.rs" if s["labels_file"] == "shared/labels.rs" else "shared/labels.rs")),
     ("comment-noise(control)", lambda s: s.update(noise=s["noise"] + 1)),
 ]
@@ -150,7 +152,8 @@ def render(s):
         ev += "pub fn notify2(app: AppHandle) {\n    app.emit(\"tick\", 1).unwrap();\n}\n\n"
     hdr = rg.PRELUDE + "use std::path::PathBuf;\nuse tauri::{AppHandle, Emitter, ipc::Channel};\nuse validator::Validate;\n\n" + "// noise\n" * s["noise"]
     legacy = [("legacy/export.rs", rg.PRELUDE + rg.command_src("legacy_export", [("format", "String")], "Vec<u8>"))] if s["legacy_file"] and not s["no_commands"] else []
-    legacy = legacy + [(s["labels_file"], rg.PRELUDE + rg.struct_src("Label", [("text", "String"), ("colour", "Option<String>")]))]
+    marker = "#[derive(Serialize, Deserialize)]\npub %s\n\n" % ("enum Marker {}" if s["marker_is_enum"] else "struct Marker;")
+    legacy = legacy + [(s["labels_file"], rg.PRELUDE + rg.struct_src("Label", [("text", "String"), ("colour", "Option<String>"), ("marker", "Option<Marker>")]) + marker)]
     if s["second_file"]:
         return [("lib.rs", hdr + user + cmds + ev), ("models/status.rs", rg.PRELUDE + status)] + legacy
     return [("lib.rs", hdr + user + status + cmds + ev)] + legacy
